@@ -103,7 +103,9 @@ func genCase(t *rapid.T) Case {
 	c.RefPage = rapid.SampledFrom([]int{0, 0, 1, 2}).Draw(t, "refPage")
 	c.SkipGC = rapid.IntRange(0, 3).Draw(t, "skipGC") == 0
 	c.CustomMT = rapid.IntRange(0, 4).Draw(t, "customMT") == 0
-	o := gen.DAGOpts{MaxNodes: max, Referrers: true, NoDocker: false, ManifestSHA: true, OnlySHA256: false, NoAbsent: true, NoForeign: true, NoBigBlobs: false, SingleMT: true, NoBlobSubj: true}
+	o := gen.DAGOpts{MaxNodes: max, Referrers: true, NoDocker: false, ManifestSHA: true, OnlySHA256: false, NoAbsent: true, NoForeign: true, NoBigBlobs: false, SingleMT: true, NoBlobSubj: true,
+		// artifact types with characters that need escaping in a query string
+		ATPool: []string{"application/vnd.verif.sig", "application/vnd.verif.sbom+json", "application/vnd.good", "application/vnd.x&y"}}
 	c.Specs = gen.Specs(t, o)
 	d := gen.Build(c.Specs)
 	ids := d.CanonIDs()
@@ -116,6 +118,9 @@ func genCase(t *rapid.T) Case {
 			op = Op{Op: "push", N: id, Reader: rapid.IntRange(0, 2).Draw(t, "reader"), Via: rapid.IntRange(0, 1).Draw(t, "via")}
 		case r < 36:
 			op = Op{Op: "pushref", N: id, Tag: rapid.SampledFrom(tagNames).Draw(t, "tag"), Reader: rapid.IntRange(0, 2).Draw(t, "reader")}
+			if rapid.Bool().Draw(t, "pushrefSpelled") {
+				op.Form = rapid.IntRange(0, 4).Draw(t, "pushrefForm")
+			}
 		case r < 46:
 			op = Op{Op: "fetch", N: id, Via: rapid.IntRange(0, 1).Draw(t, "via")}
 		case r < 54:
@@ -126,12 +131,15 @@ func genCase(t *rapid.T) Case {
 			op = Op{Op: "resolve", N: id, Tag: rapid.SampledFrom(tagNames).Draw(t, "tag"), Form: rapid.IntRange(0, 4).Draw(t, "form")}
 		case r < 76:
 			op = Op{Op: "tag", N: id, Tag: rapid.SampledFrom(tagNames).Draw(t, "tag")}
+			if rapid.Bool().Draw(t, "tagSpelled") {
+				op.Form = rapid.IntRange(0, 4).Draw(t, "tagForm")
+			}
 		case r < 83:
 			op = Op{Op: "delete", N: id}
 		case r < 88:
 			op = Op{Op: "mount", N: id, Via: rapid.IntRange(0, 1).Draw(t, "getContent")}
 		case r < 93:
-			op = Op{Op: "referrers", N: id, AT: rapid.SampledFrom([]string{"", "", "application/vnd.verif.sig", "application/vnd.nomatch"}).Draw(t, "at")}
+			op = Op{Op: "referrers", N: id, AT: rapid.SampledFrom([]string{"", "", "application/vnd.verif.sig", "application/vnd.nomatch", "application/vnd.verif.sbom+json", "application/vnd.x&y"}).Draw(t, "at")}
 		case r < 96:
 			op = Op{Op: "tags", Tag: rapid.SampledFrom([]string{"", "latest", "m"}).Draw(t, "last")}
 		default:
@@ -279,8 +287,9 @@ func runCase(c Case) (res vt.Result, fail *vt.Fail) {
 				continue
 			}
 			var err error
+			pushSpelling, pushByTag := e.refString(op, n)
 			if op.Op == "pushref" {
-				err = e.repo.PushReference(ctx, n.Desc, mkReader(op.Reader, n.Bytes), op.Tag)
+				err = e.repo.PushReference(ctx, n.Desc, mkReader(op.Reader, n.Bytes), pushSpelling)
 			} else if op.Via == 1 && isMan {
 				err = e.repo.Manifests().Push(ctx, n.Desc, mkReader(op.Reader, n.Bytes))
 			} else if op.Via == 1 {
@@ -295,7 +304,7 @@ func runCase(c Case) (res vt.Result, fail *vt.Fail) {
 				}
 			}
 			e.present[n.ID] = true
-			if op.Op == "pushref" {
+			if op.Op == "pushref" && pushByTag {
 				e.tags[op.Tag] = n.ID
 			}
 			if isMan {
@@ -397,12 +406,15 @@ func runCase(c Case) (res vt.Result, fail *vt.Fail) {
 			if !isMan {
 				continue
 			}
-			err := e.repo.Tag(ctx, n.Desc, op.Tag)
+			spelling, byTag := e.refString(op, n)
+			err := e.repo.Tag(ctx, n.Desc, spelling)
 			if e.present[n.ID] {
 				if err != nil {
 					return res, vt.Failf("C13/tag-failed", "%s: %v", when, err)
 				}
-				e.tags[op.Tag] = n.ID
+				if byTag {
+					e.tags[op.Tag] = n.ID
+				}
 			} else if err == nil {
 				return res, vt.Failf("C13/tag-absent-succeeded", "%s", when)
 			}
